@@ -195,7 +195,48 @@ def slidingMachine : Machine Sliding.SW where
     ((if Wm.tooFar s.wm r.ts now then ["far-future-guard"] else []) ++
      (if s.wm.chan.length ≥ s.wm.cap then ["watermark-channel-full"] else []))
 
+/-- SQL-level stage: no model trace (the free-running schedule decides which late rows survive);
+the declarative oracle is evaluated on the delivered result rows, plus the aggregate columns:
+count(*) = number of collected ids, sum(id) = their sum, window_id = "<start>_<end>". -/
+def runSql (c : Case) : CaseOut := Id.run do
+  let ms : Int := 1000000
+  let size := cfgInt c "size" 1000 * ms
+  let slide := (if cfgStr c "kind" "" == "sqlsliding" then cfgInt c "slide" 500 else cfgInt c "size" 1000) * ms
+  let ooo := cfgInt c "ooo" 0 * ms
+  let mut keys : List String := []
+  let mut evs : List WinSpec.Ev := []
+  let mut emits : List WinSpec.Ev := []
+  let mut bad : Option String := none
+  let grpOf (ks : List String) (k : String) : Nat := (ks.idxOf k)
+  for (op, implObs) in c.ops do
+    match op with
+    | ["row", id, ts, k] =>
+      unless keys.contains k do keys := keys ++ [k]
+      let t := if ts == "none" then none else (parseInt ts).map (· * ms)
+      evs := evs ++ [WinSpec.Ev.arr ((parseNat id).getD 0) t (grpOf keys k)]
+    | ["flush"] =>
+      for l in implObs do
+        match l with
+        | "res" :: ws :: we :: k :: cnt :: sum :: wid :: ids =>
+          let idl := ids.filterMap parseNat
+          unless keys.contains k do keys := keys ++ [k]
+          if (parseNat cnt).getD 0 != idl.length && bad.isNone then bad := some "count-differs-from-rows-of-the-window"
+          if (parseNat sum).getD 0 != idl.foldl (· + ·) 0 && bad.isNone then bad := some "sum-differs-from-rows-of-the-window"
+          if wid != "t" && bad.isNone then bad := some "window_id-not-start_end"
+          emits := emits ++ [WinSpec.Ev.emit false ((parseInt ws).getD 0) ((parseInt we).getD 0) idl (grpOf keys k)]
+        | ["sentinel-lost"] => if bad.isNone then bad := some "sentinel-window-never-delivered"
+        | _ => if bad.isNone then bad := some "unreadable-result-line"
+    | _ => pure ()
+  let scfg : WinSpec.Cfg := { size := size, slide := slide, ooo := ooo, lateness := 0, now := 1700000000000000000 }
+  let spec := match bad with
+    | some b => "fail:" ++ b
+    | none => match WinSpec.holds scfg (evs ++ emits) true with
+      | none => "ok"
+      | some e => "fail:" ++ e
+  return { obs := c.ops.map (fun p => p.2), spec := spec, tags := ["sql-level-oracle-only"] }
+
 def run (c : Case) : CaseOut :=
+  if (cfgStr c "kind" "").startsWith "sql" then runSql c else
   let size := cfgInt c "size" 1000
   let ooo := cfgInt c "ooo" 0
   let late := cfgInt c "late" 0
